@@ -199,6 +199,24 @@ pub fn act_as_rsync_if_child() {
     std::process::exit(fake_rsync(&args));
 }
 
+#[derive(Clone, Copy, Debug, PartialEq, Eq)]
+pub enum RsyncMode { InProcess, SelfExe, Script }
+
+/// How fetches are performed (see notes/rpkigen.md section 5):
+/// `RPKIGEN_RSYNC=script|self|inprocess` selects explicitly; the default is `inprocess` (the
+/// cfg(routinator_verif) hook `verif_rpkigen` in /repo/src/collector/rsync.rs, no process per
+/// fetch) unless `RPKIGEN_USE_SCRIPT` is set.
+pub fn rsync_mode() -> RsyncMode {
+    match std::env::var("RPKIGEN_RSYNC").ok().as_deref() {
+        Some("script") => return RsyncMode::Script,
+        Some("self") => return if SELF_RSYNC.load(std::sync::atomic::Ordering::SeqCst) { RsyncMode::SelfExe } else { RsyncMode::Script },
+        Some("inprocess") => return RsyncMode::InProcess,
+        _ => { }
+    }
+    if std::env::var_os("RPKIGEN_USE_SCRIPT").is_some() { return RsyncMode::Script }
+    RsyncMode::InProcess
+}
+
 /// `[args..] rsync://host/module/ <dir>/cache/rsync/host/module/`
 fn fake_rsync(args: &[String]) -> i32 {
     if args.len() < 2 { eprintln!("fake rsync: too few arguments"); return 2 }
@@ -363,10 +381,13 @@ impl World {
         c.no_rir_tals = true;
         c.extra_tals_dir = Some(self.tal_dir());
         c.disable_rrdp = true;
-        c.rsync_command = if SELF_RSYNC.load(std::sync::atomic::Ordering::SeqCst) && std::env::var_os("RPKIGEN_USE_SCRIPT").is_none() {
-            std::env::current_exe().map(|p| p.display().to_string()).unwrap_or_else(|_| self.script_path().display().to_string())
-        } else {
-            self.script_path().display().to_string()
+        c.rsync_command = match rsync_mode() {
+            // the hook in collector/rsync.rs copies in-process; only the `-h` probe of
+            // RsyncCommand::new still starts a process, so make it the cheapest one
+            RsyncMode::InProcess => "/bin/true".into(),
+            RsyncMode::SelfExe => std::env::current_exe().map(|p| p.display().to_string())
+                .unwrap_or_else(|_| self.script_path().display().to_string()),
+            RsyncMode::Script => self.script_path().display().to_string(),
         };
         c.rsync_args = Some(Vec::new());
         c.rsync_timeout = Some(std::time::Duration::from_secs(60));
@@ -391,6 +412,9 @@ impl World {
     pub fn run_with(&self, cfg: &RunCfg, tweak: impl FnOnce(&mut Config)) -> RunOutcome {
         let _ = log::set_logger(&CAPTURE);
         log::set_max_level(log::LevelFilter::Warn);
+        // (de)activate the in-process rsync hook; the registry entry is process-wide and only
+        // rpkigen touches it
+        routinator::verif::set_forced("rpkigen.inprocess_rsync", vec![if rsync_mode() == RsyncMode::InProcess { 1 } else { 0 }]);
         if let Ok(mut l) = LOG_LINES.lock() { l.clear(); }
         let _ = std::fs::remove_file(self.dir.join("fetch.log"));
         let mut config = self.config(cfg);
